@@ -1911,3 +1911,42 @@ func globalRoot(path string) string {
 	}
 	return path
 }
+
+// freshMapKeys: the keys of a map the evaluated code made, when every entry
+// was stored under a constant key on the path followed (no store through an
+// unknown key, no entry of a summary object, no maybe).
+func (fr *frame) freshMapKeys(m string) ([]Val, bool) {
+	if fr.multi(m + "[0]") {
+		return nil, false
+	}
+	prefix := m + "["
+	var keys []Val
+	for k, c := range fr.cur.flat() {
+		if !strings.HasPrefix(k, prefix) {
+			continue
+		}
+		rest := k[len(prefix):]
+		if !strings.HasSuffix(rest, "]") || c.dead {
+			if c.dead {
+				continue
+			}
+			return nil, false // a cell below an entry: not a flat map
+		}
+		rest = rest[:len(rest)-1]
+		if rest == "*" || rest == "*lo" || rest == "+" || c.Maybe {
+			return nil, false
+		}
+		if strings.HasPrefix(rest, "\"") {
+			sv, err := strconv.Unquote(rest)
+			if err != nil {
+				return nil, false
+			}
+			keys = append(keys, strVal(sv))
+		} else if i, ok := new(big.Int).SetString(rest, 10); ok {
+			keys = append(keys, intVal(i))
+		} else {
+			return nil, false
+		}
+	}
+	return keys, true
+}
